@@ -46,7 +46,10 @@ def run(tier):
     configs = []
     inputs = {"valid": (["a.pn"], True), "multi": (["main.pn", "lib.pn"], True), "invalid": (["bad.pn"], False), "mixed": (["a.pn", "bad.pn"], False),
               "dirs": (["top.pn", "geo/util.pn", "audio/util.pn"], True), "hint": (["hint.pn"], False),
-              "notes": (["notes.pn", "a.pn"], True), "zero": (["a.pn", "zero.pn"], False)}   # a zero-byte file is an error (E101)        # a module without declarations (only a comment) is a module
+              "notes": (["notes.pn", "a.pn"], True), "zero": (["a.pn", "zero.pn"], False),
+              # a module whose name does not end in .pn (the back end runs all the same), and an error after text outside
+              # ASCII (locations count characters; the renderer must be told so: the snippet and line:column are right)
+              "otherext": (["prog.penne"], True), "noext": (["prog"], True), "accent": (["accent.pn"], False)}   # a zero-byte file is an error (E101)        # a module without declarations (only a comment) is a module
     for sub in ("build", "run", "emit"):
         for inp in inputs:
             opts_space = [("silent", [False, True]), ("verbose", [False, True]), ("color", [None, "never", "always"]), ("arrows", [None, "ascii", "unicode"]),
@@ -69,6 +72,8 @@ def run(tier):
         open(os.path.join(d, "bad.pn"), "w").write(INVALID); open(os.path.join(d, "hint.pn"), "w").write(INVALID_HINT)
         open(os.path.join(d, "notes.pn"), "w").write("// notes only: nothing is declared here\n")
         open(os.path.join(d, "zero.pn"), "w").write("")
+        open(os.path.join(d, "prog.penne"), "w").write(VALID_A); open(os.path.join(d, "prog"), "w").write(VALID_A)
+        open(os.path.join(d, "accent.pn"), "w", encoding="utf-8").write("// Berechnet die Größe der Tabelle für das Café «Zoë» ✓✓✓✓✓✓✓✓✓✓✓✓✓✓✓✓ €€€€ 😀😀\n" + INVALID.replace("fn main", "// ï\nfn main"))
         for rel, text in DIRS.items():
             os.makedirs(os.path.dirname(os.path.join(d, rel)) or d, exist_ok=True); open(os.path.join(d, rel), "w").write(text)
         for nm in ("stubF", "stubE", "stubC", "clang", "lli"):
@@ -138,6 +143,8 @@ def run(tier):
         if not ok and not o["silent"]:
             if (b"E101" if inp == "zero" else b"E402" if inp != "hint" else b"E47") not in out:
                 bad += 1; ck.violation("diagnostic-missing", "failing compilation without a rendered diagnostic (%s)" % desc, replay); continue
+            if inp in ("invalid", "accent", "mixed") and o["color"] == "never" and (b"var x: i32 = undefined_name" not in out or (inp == "accent" and b"accent.pn:5:15" not in out) or p.returncode not in (1,)):
+                bad += 1; ck.violation("diagnostic-misrendered", "the rendered diagnostic does not show the offending line at its place, or the tool did not exit with status 1 (exit %d; %s)" % (p.returncode, desc), replay); continue
             if o["color"] == "never" and b"\x1b" in out:
                 bad += 1; ck.violation("color-never-ignored", "--color=never but ANSI escapes were printed (%s)" % desc, replay); continue
             if o["arrows"] == "ascii" and o["color"] == "never" and not o["verbose"] and not out.isascii():
